@@ -3,6 +3,7 @@ import NxProofs.Refine
 import NxProofs.RefineSend
 import NxProofs.HandlePath
 import NxProofs.Liveness
+import NxProofs.Roles
 /-!
 # C01 — two L1 endpoints and the network between them, as one system
 
@@ -79,11 +80,26 @@ inductive SysOp where
   | deliver (j : Nat)                  -- the network hands a copy of `net[j]` to `b` (straight to `process_reliable`)
   | deliverH (now : Time) (j : Nat)    -- the same copy through the whole receive path `b.handle`: gates, acknowledgement, `process_reliable`
   | inject (now : Time) (p : Packet)   -- somebody hands `b.handle` ANY packet whose signature is not the one `b` expects of it
+  | aSendOther (now : Time) (data : Bytes) (s : Nat)  -- `a` sends on ANOTHER substream
+  | aRecv (now : Time) (p : Packet)    -- `a` receives an ordinary reliable packet (the other direction's data, any substream) through `handle`
+  | bSend (now : Time) (data : Bytes) (s : Nat)       -- `b` sends data of its own (the other direction; any substream)
+  | bPing (now : Time)                 -- `b`'s keep-alive timer fires
+  | bAckIn (now : Time) (p : Packet)   -- `b` is handed an acknowledgement (not of SYN / CONNECT / DISCONNECT) of its own traffic
   | ackIn (now : Time) (p : Packet)    -- `a.handle` is handed ANY acknowledgement (ACK or aggregate MULTI_ACK flag; true, stale,
                                        -- coalesced or forged) of a non-handshake packet
 
 /-- `send` raises before doing anything (closed connection / invalid substream) -/
 def sendRefused (c : Conn) (sub : Nat) : Bool := decide (c.state ≠ STATE_CONNECTED) || decide (sub > c.maxSub)
+
+/-- `Ordinary`, as a Bool -/
+def ordinaryB (p : Packet) : Bool :=
+  decide (p.type ≠ TYPE_SYN) && decide (p.type ≠ TYPE_CONNECT) && !hasAck p.flags && !hasMultiAck p.flags && hasNeedAck p.flags &&
+    hasReliable p.flags
+
+theorem ordinary_of_B (p : Packet) (h : ordinaryB p = true) : Ordinary p := by
+  unfold ordinaryB at h
+  simp only [Bool.and_eq_true, decide_eq_true_eq, Bool.not_eq_true'] at h
+  exact ⟨h.1.1.1.1.1, h.1.1.1.1.2, h.1.1.1.2, h.1.1.2, h.1.2, h.2⟩
 
 def Sys.step (env : Env) (sub : Nat) (s : Sys) : SysOp → Sys
   | .send now data =>
@@ -128,6 +144,11 @@ def Sys.step (env : Env) (sub : Nat) (s : Sys) : SysOp → Sys
       { s with b := (s.b.handle env now p).c, nrel := s.nrel + k }
   | .inject now p => { s with b := (s.b.handle env now p).c }
   | .ackIn now p => { s with a := (s.a.handle env now p).c }
+  | .aSendOther now data s' => { s with a := (s.a.send env now data s').c }
+  | .aRecv now p => { s with a := (s.a.handle env now p).c }
+  | .bSend now data s' => { s with b := (s.b.send env now data s').c }
+  | .bPing now => { s with b := (s.b.sendPing env now).c }
+  | .bAckIn now p => { s with b := (s.b.handle env now p).c }
 
 def Sys.run (env : Env) (sub : Nat) (s : Sys) (ops : List SysOp) : Sys := ops.foldl (Sys.step env sub) s
 
@@ -151,6 +172,12 @@ def Sys.opOk (env : Env) (sub : Nat) (s : Sys) : SysOp → Bool
   | .deliverH _ j => decide (j < s.nrel + 32768 ∧ s.nrel < j + 32768) || decide (s.net.length ≤ j)
   | .inject _ p => decide (p.signature ≠ s.b.expectedSig env p)
   | .ackIn _ p => (hasAck p.flags || hasMultiAck p.flags) && decide (p.type ≠ TYPE_SYN) && decide (p.type ≠ TYPE_CONNECT)
+  | .aSendOther _ _ s' => decide (s' ≠ sub)
+  | .aRecv _ p => ordinaryB p
+  | .bSend _ _ _ => true
+  | .bPing _ => true
+  | .bAckIn _ p => (hasAck p.flags || hasMultiAck p.flags) && decide (p.type ≠ TYPE_SYN) && decide (p.type ≠ TYPE_CONNECT) &&
+      decide (p.type ≠ TYPE_DISCONNECT)
 
 def Sys.runOk (env : Env) (sub : Nat) : Sys → List SysOp → Bool
   | _, [] => true
@@ -599,6 +626,11 @@ def Sys.absOp (env : Env) (sub : Nat) (s : Sys) : SysOp → Option Op
     | some p => if s.b.accepts env now p then some (.arrive j) else none
   | .inject _ _ => none
   | .ackIn _ _ => none
+  | .aSendOther _ _ _ => none
+  | .aRecv _ _ => none
+  | .bSend _ _ _ => none
+  | .bPing _ => none
+  | .bAckIn _ _ => none
 
 def stepOpt (ci : Cipher) (size : Nat) (ch : Chan) : Option Op → Chan
   | none => ch
@@ -954,6 +986,44 @@ theorem cpl_step (env : Env) (hcomp : ∀ b, env.compress b = b) (hdec : ∀ b, 
     · obtain ⟨hc, sc, hsc, hpos⟩ := h.srel
       exact ⟨by rw [hf.ctr]; exact hc, sc, by rw [hf.ciph]; exact hsc, fun hon => hpos (by rw [← hf.con]; exact hon)⟩
     · rw [← h.acipher]; simp only [cipherOf, hf.ciph, hf.con]
+
+  | aSendOther now data s' =>
+    simp only [Sys.absOp, stepOpt, Sys.step]
+    simp only [Sys.opOk, decide_eq_true_eq] at hok
+    have hf := send_other_sendFr env now s.a data s' sub hok
+    obtain ⟨hs', hc'⟩ := srel_of_sendFr hf h.srel
+    exact ⟨⟨by rw [hf.fs]; exact h.size, hs', hc'.trans h.acipher, h.log, h.netgood, h.netord, h.blink, h.beof, h.sent,
+      fun hst => h.opn (connected_of_stateFr hf.st hst), h.cln, h.pend, h.bwf, h.bwin, h.rrel, h.bcipher, h.nrel⟩, fun o ho => by cases ho⟩
+  | aRecv now p =>
+    simp only [Sys.absOp, stepOpt, Sys.step]
+    simp only [Sys.opOk] at hok
+    have hf := handle_ordinary_sendFr env now s.a p sub (ordinary_of_B p hok)
+    obtain ⟨hs', hc'⟩ := srel_of_sendFr hf h.srel
+    exact ⟨⟨by rw [hf.fs]; exact h.size, hs', hc'.trans h.acipher, h.log, h.netgood, h.netord, h.blink, h.beof, h.sent,
+      fun hst => h.opn (connected_of_stateFr hf.st hst), h.cln, h.pend, h.bwf, h.bwin, h.rrel, h.bcipher, h.nrel⟩, fun o ho => by cases ho⟩
+  | bSend now data s' =>
+    simp only [Sys.absOp, stepOpt, Sys.step]
+    have hf := send_recvFr env now s.b data s' sub h.blink
+    obtain ⟨h1, h2, h3, h4, h5, h6⟩ := rrel_of_recvFr hf h.bwf h.rrel
+    obtain ⟨w, hw, hgw, hwm⟩ := h.bwin
+    exact ⟨⟨h.size, h.srel, h.acipher, h.log, h.netgood, h.netord, h5 h.blink, h6 h.beof, h.sent, h.opn, h.cln, h.pend, h1,
+      ⟨w, by rw [h4]; exact hw, hgw, hwm⟩, h2, h3.trans h.bcipher, h.nrel⟩, fun o ho => by cases ho⟩
+  | bPing now =>
+    simp only [Sys.absOp, stepOpt, Sys.step]
+    have hf := sendPing_recvFr env now s.b sub h.blink
+    obtain ⟨h1, h2, h3, h4, h5, h6⟩ := rrel_of_recvFr hf h.bwf h.rrel
+    obtain ⟨w, hw, hgw, hwm⟩ := h.bwin
+    exact ⟨⟨h.size, h.srel, h.acipher, h.log, h.netgood, h.netord, h5 h.blink, h6 h.beof, h.sent, h.opn, h.cln, h.pend, h1,
+      ⟨w, by rw [h4]; exact hw, hgw, hwm⟩, h2, h3.trans h.bcipher, h.nrel⟩, fun o ho => by cases ho⟩
+  | bAckIn now p =>
+    simp only [Sys.absOp, stepOpt, Sys.step]
+    simp only [Sys.opOk, Bool.and_eq_true, decide_eq_true_eq] at hok
+    obtain ⟨⟨⟨hack, hns⟩, hnc⟩, hnd⟩ := hok
+    have hf := handle_ack_recvFr env now s.b p sub hack hns hnc hnd
+    obtain ⟨h1, h2, h3, h4, h5, h6⟩ := rrel_of_recvFr hf h.bwf h.rrel
+    obtain ⟨w, hw, hgw, hwm⟩ := h.bwin
+    exact ⟨⟨h.size, h.srel, h.acipher, h.log, h.netgood, h.netord, h5 h.blink, h6 h.beof, h.sent, h.opn, h.cln, h.pend, h1,
+      ⟨w, by rw [h4]; exact hw, hgw, hwm⟩, h2, h3.trans h.bcipher, h.nrel⟩, fun o ho => by cases ho⟩
 
 /-! ## whole runs -/
 
